@@ -366,13 +366,14 @@ class ChoiceList(BaseColumnType):
       # If it's a string that looks like JSON, try to parse it as such.
       if value.startswith('['):
         try:
-          return tuple(str(item) for item in json.loads(value))
+          # An empty list is represented as None (also the default value), like any other empty value.
+          return tuple(str(item) for item in json.loads(value)) or None
         except Exception:
           pass
       return value
     else:
       # Accepts other kinds of iterables; if that doesn't work, fail the conversion too.
-      return tuple(str(item) for item in value)
+      return tuple(str(item) for item in value) or None
 
   @classmethod
   def is_right_type(cls, value):
